@@ -948,6 +948,12 @@ def chk_estimator(inp, c):
         c.cell("est:single-chromaticity")
     notes = {"chromatic_rank_system": rP, "chromatic_rank_reference": rR, "n_corner_captures": len(P),
              "n_reference_points": len(ref)}
+    # the answers below must not depend on what was asked before: ask the relative-capture gamut first (twice), on the
+    # same estimator, then judge the absolute-capture answers
+    if inp.get("ask_relative_first", seed % 2 == 0):
+        c.cell("est:asked-relative-first")
+        c.try_call(est.compute_gamut, relative=True, seed=seed)
+        c.try_call(est.compute_gamut, relative=True, metric="volume")
     for metric in ("width", "volume"):
         c.cell("est:metric=" + metric)
         g = _scalar(c, c.call(est.compute_gamut, relative=False, metric=metric, seed=seed,
